@@ -68,6 +68,7 @@ type tdecl struct {
 	nontriv bool
 	tparams int
 	inst    string // instantiation used in the test
+	ifaces  bool   // carries gengo:deepcopy:interfaces (a DeepCopyObject method is generated)
 }
 
 type gen struct {
@@ -89,6 +90,7 @@ func (g *gen) tagLine(t *tdecl, ifaces bool) string {
 	}
 	if ifaces {
 		s += "// +gengo:deepcopy:interfaces=" + mod + "/rt.Object\n"
+		t.ifaces = true
 	}
 	return s
 }
@@ -476,7 +478,14 @@ func testFile(pkg string, decls []*tdecl) string {
 			fmt.Fprintf(&b, "\t\t\tcv := reflect.ValueOf(&cp).Elem()\n\t\t\tc17mutate(cv)\n\t\t\tif !reflect.DeepEqual(*orig, snap) {\n\t\t\t\tfmt.Printf(\"C17MISMATCH %d mutating the copy changed the original: now %%v, was %%v\\n\", *orig, snap)\n\t\t\t}\n\t\t}\n", i)
 		} else {
 			fmt.Fprintf(&b, "\t\tvar nilp *%s\n\t\tif nilp.DeepCopy() != nil {\n\t\t\tfmt.Printf(\"C17MISMATCH %d DeepCopy of nil is not nil\\n\")\n\t\t}\n", T, i)
+			if d.ifaces {
+				// the copy through the object interface: nil stays nil (a nil interface, not a typed nil pointer inside one)
+				fmt.Fprintf(&b, "\t\tif o := nilp.DeepCopyObject(); o != nil {\n\t\t\tfmt.Printf(\"C17MISMATCH %d DeepCopy of nil is not nil through DeepCopyObject: %%#v\\n\", o)\n\t\t}\n", i)
+			}
 			fmt.Fprintf(&b, "\t\tfor seed := uint64(1); seed <= 6; seed++ {\n\t\t\torig := new(%s)\n\t\t\tc17fill(&c17rng{s: seed}, reflect.ValueOf(orig).Elem(), 0)\n\t\t\tsnap := c17clone(reflect.ValueOf(orig).Elem()).Interface()\n", T)
+			if d.ifaces {
+				fmt.Fprintf(&b, "\t\t\tif o, ok := orig.DeepCopyObject().(*%s); !ok || o == nil || !reflect.DeepEqual(*o, *orig) {\n\t\t\t\tfmt.Printf(\"C17MISMATCH %d DeepCopyObject %%+v differs from original %%+v\\n\", o, *orig)\n\t\t\t}\n", T, i)
+			}
 			fmt.Fprintf(&b, "\t\t\tcp := orig.DeepCopy()\n\t\t\tif cp == nil || !reflect.DeepEqual(*cp, *orig) {\n\t\t\t\tfmt.Printf(\"C17MISMATCH %d DeepCopy %%+v differs from original %%+v\\n\", cp, *orig)\n\t\t\t\tcontinue\n\t\t\t}\n", i)
 			fmt.Fprintf(&b, "\t\t\tvar into %s\n\t\t\torig.DeepCopyInto(&into)\n\t\t\tif !reflect.DeepEqual(into, *orig) {\n\t\t\t\tfmt.Printf(\"C17MISMATCH %d DeepCopyInto %%+v differs from original %%+v\\n\", into, *orig)\n\t\t\t}\n", T, i)
 			fmt.Fprintf(&b, "\t\t\tn := c17mutate(reflect.ValueOf(cp).Elem()) + c17mutate(reflect.ValueOf(&into).Elem())\n\t\t\tif !reflect.DeepEqual(*orig, snap) {\n\t\t\t\tfmt.Printf(\"C17MISMATCH %d after %%d mutations of the copies the original changed: now %%+v, was %%+v\\n\", n, *orig, snap)\n\t\t\t}\n\t\t\tfmt.Printf(\"C17MUT %%d\\n\", n)\n\t\t}\n", i)
